@@ -150,6 +150,9 @@ class BaseDeferred(metaclass=BaseDeferredMetaclass):
 
     def __mul__(self, rhs):
         if self.typ is int:
+            if isinstance(rhs, LinearPolynomial):
+                # Keeps the polynomial symbolic, like 'polynomial * self' does
+                return rhs * self
             return Deferred[self.typ](lambda: LinearPolynomial[self.typ]({self: wait(rhs)}))
         else:
             raise TypeError(f"Don't know how to multiply {self.typ.__name__}")
@@ -302,10 +305,16 @@ class LinearPolynomial(BaseDeferred):
             # computed speculatively (reporting errors if any), then substitute
             # once more, so that the same quantity reached through different
             # variables cancels out before anything else is evaluated.
-            for key in not_ready_keys:
-                if not key.is_awaiting:
-                    key.wait()
-            self._substitute_known_variables()
+            # This may uncover further such variables (e.g. a chain of symbols
+            # exported by other files), hence the loop.
+            while not_ready_keys:
+                for key in not_ready_keys:
+                    if not key.is_awaiting:
+                        key.wait()
+                previous_keys = not_ready_keys
+                not_ready_keys = self._substitute_known_variables()
+                if len(not_ready_keys) == len(previous_keys) and all(a is b for a, b in zip(not_ready_keys, previous_keys)):
+                    break
 
         return sum(key.wait() * value for key, value in self.coeffs.items()) + self.constant_term
 
